@@ -413,7 +413,7 @@ def check(ctx):
 
 
 def _str_by_interpretation(ctx, tb: ClassInfo, m: FuncInfo):
-    """TextBlock.__str__ interpreted (dznverif.scenario, E6) on blocks whose header / line buffers hold zero to three strings
+    """TextBlock.__str__ interpreted (dznverif.scenario, E7) on blocks whose header / line buffers hold zero to three strings
     (a blank one among them): the result must be the concatenation of `line + EOL` over header then lines.  __str__ only
     joins and concatenates the entries, so their number and emptiness is all that matters.  List of disagreements, None when
     the method cannot be interpreted."""
